@@ -86,6 +86,7 @@ func oneReindexed(c *core.Ctx, cs Case) {
 	want := make([]string, n)
 	m.ScanPrimitives(func(i int, p modeling.Primitive) { want[i] = primKey(p) })
 	got := make([]string, n)
+	kept := make([]modeling.Primitive, n) // ScanPrimitives lets the callback keep what it is handed
 	visits := make([]int, n)
 	bad := -1
 	vsched.CaptureFreePanics(true)
@@ -100,8 +101,20 @@ func oneReindexed(c *core.Ctx, cs Case) {
 			}
 			visits[i]++
 			got[i] = k
+			kept[i] = p
 		})
 	})
+	keptBad := ""
+	if !g.Panicked {
+		core.Guard(func() {
+			for i, p := range kept {
+				if p != nil && visits[i] == 1 && primKey(p) != want[i] {
+					keptBad = fmt.Sprintf("the primitive kept for index %d spans %s after the scan, ScanPrimitives' primitive %s", i, primKey(p), want[i])
+					return
+				}
+			}
+		})
+	}
 	site := "modeling.Mesh.ScanPrimitivesParallelWithPoolSize"
 	class := classify(cs) + "/non-identity-indices"
 	outcome := "ok"
@@ -127,6 +140,9 @@ func oneReindexed(c *core.Ctx, cs Case) {
 				fail("every element is visited exactly once with its own index", fmt.Sprintf("the primitive handed out for index %d spans %s, ScanPrimitives hands out %s", i, got[i], want[i]))
 				break
 			}
+		}
+		if outcome == "ok" && keptBad != "" {
+			fail("every element is visited exactly once with its own index", keptBad)
 		}
 	}
 	raceAndCount(c, cs, outcome, n > 0 && cs.Pool > 1)
@@ -172,9 +188,16 @@ func placement(k int) vector3.Float64 {
 	return vector3.New(x, y, sweepZ[k%len(sweepZ)])
 }
 
-func boxField(pos vector3.Float64) marching.Field {
+// boxField: the box with a domain that holds it (pool >= 0) or — "clipped", encoded as a negative
+// worker count in the case — with a domain smaller than the box, so that the field is still inside
+// on the last sampled plane of its domain.
+func boxField(pos vector3.Float64, clipped bool) marching.Field {
+	dom := vector3.New(3., 3., 3.)
+	if clipped {
+		dom = vector3.New(2., 1.6, 1.2)
+	}
 	return marching.Field{
-		Domain:          geometry.NewAABB(pos, vector3.New(3., 3., 3.)),
+		Domain:          geometry.NewAABB(pos, dom),
 		Float1Functions: map[string]sample.Vec3ToFloat{modeling.PositionAttribute: sdf.Box(pos, vector3.New(2.6, 2.2, 1.8))},
 	}
 }
@@ -210,8 +233,13 @@ func triMultiset(m modeling.Mesh) (string, int) {
 }
 
 func oneCanvas(c *core.Ctx, cs Case) {
+	clipped := cs.Pool < 0 // the case keeps the sign (replay), the code below uses `workers`
+	workers := cs.Pool
+	if workers < 0 {
+		workers = -workers
+	}
 	pos := placement(cs.N)
-	f := boxField(pos)
+	f := boxField(pos, clipped)
 	seq := marching.NewMarchingCanvas(1)
 	seq.AddField(f)
 	var wantKey string
@@ -220,7 +248,7 @@ func oneCanvas(c *core.Ctx, cs Case) {
 		c.HarnessError("sequential march of the box at %v failed: %s", pos, g.Msg)
 		return
 	}
-	vchoice.SetNumCPU(cs.Pool)
+	vchoice.SetNumCPU(workers)
 	defer vchoice.SetNumCPU(0)
 	var gotKey string
 	var gotN int
@@ -240,10 +268,13 @@ func oneCanvas(c *core.Ctx, cs Case) {
 	outcome := "ok"
 	site := "marching.MarchingCanvas." + strings.ReplaceAll(strings.TrimPrefix(cs.Entry, "canvas/"), "+", "/")
 	class := "canvas-placement/" + boundaryClass(pos)
+	if clipped {
+		class += "/field-clipped-by-its-domain"
+	}
 	fail := func(detail string) {
 		outcome = "mismatch"
 		c.Violate(core.Violation{Site: site, Clause: "the parallel variant produces the same triangle multiset as its sequential counterpart", Class: class,
-			Detail: fmt.Sprintf("%s, box centre %v, %d workers: %s", cs.Entry, pos, cs.Pool, detail), Case: cs})
+			Detail: fmt.Sprintf("%s, box centre %v, %d workers, clipped=%v: %s", cs.Entry, pos, workers, clipped, detail), Case: cs})
 	}
 	workerPanics := vsched.TakeFreePanics()
 	switch {
@@ -254,7 +285,7 @@ func oneCanvas(c *core.Ctx, cs Case) {
 	case gotKey != wantKey:
 		fail(fmt.Sprintf("parallel pipeline yields %d triangles, AddField + March %d (or differing vertices)", gotN, wantN))
 	}
-	raceAndCount(c, cs, outcome, wantN > 0 && cs.Pool > 1)
+	raceAndCount(c, cs, outcome, wantN > 0 && workers > 1)
 }
 
 // boundaryClass: in how many axes the box (half extents 1.3, 1.1, 0.9) straddles the plane 6 between
